@@ -8,16 +8,18 @@ import (
 )
 
 // The catalogue: hand-written types that carry the methods reflect.StructOf
-// types cannot have. Every type is registered together with its structural
+// types cannot have. The struct types carry a second tag set under the tag name
+// "alt" (other names, names swapped between fields, other ignore, inline and
+// policy flags), which Unpack reads when called with StructTag("alt"). Every type is registered together with its structural
 // shape, which drives value generation, configuration building and the
 // expectation. The number 13 is the one value the Validate methods reject; the
 // value generators never produce it, so only an injected fault does.
 
 // DefStruct has defaults for two of its three settings and rejects z == 13.
 type DefStruct struct {
-	X    int    `config:"x"`
-	Y    string `config:"y"`
-	Z    int    `config:"z"`
+	X    int    `config:"x" alt:"dx"`
+	Y    string `config:"y" alt:"dy,ignore"`
+	Z    int    `config:"z" alt:"z"`
 	keep int
 }
 
@@ -42,8 +44,8 @@ func (d DefMap) InitDefaults() { d["dflt"] = 1 }
 
 // ValStruct has no defaults and rejects x == 13 (checked after all of its fields were processed).
 type ValStruct struct {
-	X int    `config:"x"`
-	Y string `config:"y"`
+	X int    `config:"x" alt:"vx"`
+	Y string `config:"y" alt:"x"`
 }
 
 func (v ValStruct) Validate() error {
@@ -79,12 +81,12 @@ func (u *UnpStr) Unpack(s string) error {
 // DefOuter has defaults of its own and contains types that have defaults
 // (initialisation is top-down: the outer defaults run first).
 type DefOuter struct {
-	A   int        `config:"a"`
-	In  DefStruct  `config:"in"`
-	P   *DefStruct `config:"p"`
-	L   []DefInt   `config:"l"`
+	A   int        `config:"a" alt:"oa"`
+	In  DefStruct  `config:"in" alt:",inline"`
+	P   *DefStruct `config:"p" alt:"in"`
+	L   []DefInt   `config:"l" alt:"ol,prepend"`
 	hid string
-	Ig  int `config:"ig,ignore"`
+	Ig  int `config:"ig,ignore" alt:"ig"`
 }
 
 func (o *DefOuter) InitDefaults() {
@@ -102,16 +104,16 @@ func (o *DefOuter) InitDefaults() {
 // has defaults and a Validate method of its own (it rejects z == 13 after all
 // fields were processed).
 type Top struct {
-	A   int            `config:"a"`
-	S   []int          `config:"s"`
-	M   map[string]int `config:"m"`
-	D   DefStruct      `config:"d"`
-	PV  *ValStruct     `config:"pv"`
-	R   []ValStruct    `config:"r,replace"`
+	A   int            `config:"a" alt:"z"`
+	S   []int          `config:"s" alt:"ts,append"`
+	M   map[string]int `config:"m" alt:"tm"`
+	D   DefStruct      `config:"d" alt:"td"`
+	PV  *ValStruct     `config:"pv" alt:"tpv,replace"`
+	R   []ValStruct    `config:"r,replace" alt:"r"`
 	hid int
-	Ig  string `config:"ig,ignore"`
-	N   DefInt `config:"n"`
-	Z   int    `config:"z"`
+	Ig  string `config:"ig,ignore" alt:"tig"`
+	N   DefInt `config:"n" alt:"n,ignore"`
+	Z   int    `config:"z" alt:"a"`
 }
 
 func (t *Top) InitDefaults() {
@@ -143,47 +145,82 @@ var catKinds = []string{kDefStruct, kDefInt, kDefMap, kValStruct, kValInt, kUnpS
 
 func td(kind string) *gen.TD { return &gen.TD{Kind: kind} }
 
+func ptrTo(e *gen.TD) *gen.TD   { return &gen.TD{Kind: "ptr", Elem: e} }
+func sliceOf(e *gen.TD) *gen.TD { return &gen.TD{Kind: "slice", Elem: e} }
+
+// registerStruct registers a catalogue struct with its shape under the tag
+// name "config", under "alt" (hand-written next to the Go type above) and
+// under a tag name it does not carry (derived: lower-cased Go names, no flags).
+func registerStruct(name string, typ reflect.Type, primary, alt []gen.FD) {
+	shape := &gen.TD{Kind: "struct", Fields: primary}
+	gen.RegisterCat(name, typ, shape)
+	gen.RegisterCat(name+"@alt", typ, &gen.TD{Kind: "struct", Fields: alt})
+	gen.RegisterCat(name+"@bare", typ, bareShape(shape))
+}
+
 func init() {
-	defStructShape := &gen.TD{Kind: "struct", Fields: []gen.FD{
-		{Name: "X", Tag: "x", T: td("int")},
-		{Name: "Y", Tag: "y", T: td("string")},
-		{Name: "Z", Tag: "z", T: td("int")},
-		{Name: "keep", Tag: "keep", Unexp: true, T: td("int")},
-	}}
-	gen.RegisterCat("c13_defstruct", reflect.TypeOf(DefStruct{}), defStructShape)
 	gen.RegisterCat("c13_defint", reflect.TypeOf(DefInt(0)), td("int"))
 	gen.RegisterCat("c13_defmap", reflect.TypeOf(DefMap(nil)), &gen.TD{Kind: "map", Elem: td("int")})
-	gen.RegisterCat("c13_valstruct", reflect.TypeOf(ValStruct{}), &gen.TD{Kind: "struct", Fields: []gen.FD{
-		{Name: "X", Tag: "x", T: td("int")},
-		{Name: "Y", Tag: "y", T: td("string")},
-	}})
 	gen.RegisterCat("c13_valint", reflect.TypeOf(ValInt(0)), td("int"))
 	gen.RegisterCat("c13_unpstr", reflect.TypeOf(UnpStr{}), &gen.TD{Kind: "struct", Fields: []gen.FD{
 		{Name: "S", Tag: "s", T: td("string")},
 	}})
-	gen.RegisterCat("c13_defouter", reflect.TypeOf(DefOuter{}), &gen.TD{Kind: "struct", Fields: []gen.FD{
+	registerStruct("c13_defstruct", reflect.TypeOf(DefStruct{}), []gen.FD{
+		{Name: "X", Tag: "x", T: td("int")},
+		{Name: "Y", Tag: "y", T: td("string")},
+		{Name: "Z", Tag: "z", T: td("int")},
+		{Name: "keep", Tag: "keep", Unexp: true, T: td("int")},
+	}, []gen.FD{
+		{Name: "X", Tag: "dx", T: td("int")},
+		{Name: "Y", Tag: "dy", Ignore: true, T: td("string")},
+		{Name: "Z", Tag: "z", T: td("int")},
+		{Name: "keep", Tag: "keep", Unexp: true, T: td("int")},
+	})
+	registerStruct("c13_valstruct", reflect.TypeOf(ValStruct{}), []gen.FD{
+		{Name: "X", Tag: "x", T: td("int")},
+		{Name: "Y", Tag: "y", T: td("string")},
+	}, []gen.FD{
+		{Name: "X", Tag: "vx", T: td("int")},
+		{Name: "Y", Tag: "x", T: td("string")},
+	})
+	registerStruct("c13_defouter", reflect.TypeOf(DefOuter{}), []gen.FD{
 		{Name: "A", Tag: "a", T: td("int")},
 		{Name: "In", Tag: "in", T: td(kDefStruct)},
-		{Name: "P", Tag: "p", T: &gen.TD{Kind: "ptr", Elem: td(kDefStruct)}},
-		{Name: "L", Tag: "l", T: &gen.TD{Kind: "slice", Elem: td(kDefInt)}},
+		{Name: "P", Tag: "p", T: ptrTo(td(kDefStruct))},
+		{Name: "L", Tag: "l", T: sliceOf(td(kDefInt))},
 		{Name: "hid", Tag: "hid", Unexp: true, T: td("string")},
 		{Name: "Ig", Tag: "ig", Ignore: true, T: td("int")},
-	}})
-}
-
-func init() {
-	gen.RegisterCat("c13_top", reflect.TypeOf(Top{}), &gen.TD{Kind: "struct", Fields: []gen.FD{
+	}, []gen.FD{
+		{Name: "A", Tag: "oa", T: td("int")},
+		{Name: "In", Inline: true, T: td(kDefStruct + "@alt")},
+		{Name: "P", Tag: "in", T: ptrTo(td(kDefStruct + "@alt"))},
+		{Name: "L", Tag: "ol", Policy: "prepend", T: sliceOf(td(kDefInt))},
+		{Name: "hid", Tag: "hid", Unexp: true, T: td("string")},
+		{Name: "Ig", Tag: "ig", T: td("int")},
+	})
+	registerStruct("c13_top", reflect.TypeOf(Top{}), []gen.FD{
 		{Name: "A", Tag: "a", T: td("int")},
-		{Name: "S", Tag: "s", T: &gen.TD{Kind: "slice", Elem: td("int")}},
+		{Name: "S", Tag: "s", T: sliceOf(td("int"))},
 		{Name: "M", Tag: "m", T: &gen.TD{Kind: "map", Elem: td("int")}},
 		{Name: "D", Tag: "d", T: td(kDefStruct)},
-		{Name: "PV", Tag: "pv", T: &gen.TD{Kind: "ptr", Elem: td(kValStruct)}},
-		{Name: "R", Tag: "r", Policy: "replace", T: &gen.TD{Kind: "slice", Elem: td(kValStruct)}},
+		{Name: "PV", Tag: "pv", T: ptrTo(td(kValStruct))},
+		{Name: "R", Tag: "r", Policy: "replace", T: sliceOf(td(kValStruct))},
 		{Name: "hid", Tag: "hid", Unexp: true, T: td("int")},
 		{Name: "Ig", Tag: "ig", Ignore: true, T: td("string")},
 		{Name: "N", Tag: "n", T: td(kDefInt)},
 		{Name: "Z", Tag: "z", T: td("int")},
-	}})
+	}, []gen.FD{
+		{Name: "A", Tag: "z", T: td("int")},
+		{Name: "S", Tag: "ts", Policy: "append", T: sliceOf(td("int"))},
+		{Name: "M", Tag: "tm", T: &gen.TD{Kind: "map", Elem: td("int")}},
+		{Name: "D", Tag: "td", T: td(kDefStruct + "@alt")},
+		{Name: "PV", Tag: "tpv", Policy: "replace", T: ptrTo(td(kValStruct + "@alt"))},
+		{Name: "R", Tag: "r", T: sliceOf(td(kValStruct + "@alt"))},
+		{Name: "hid", Tag: "hid", Unexp: true, T: td("int")},
+		{Name: "Ig", Tag: "tig", T: td("string")},
+		{Name: "N", Tag: "n", Ignore: true, T: td(kDefInt)},
+		{Name: "Z", Tag: "a", T: td("int")},
+	})
 }
 
 // topKinds are the catalogue structs that also serve as the type of the whole target.
